@@ -114,6 +114,28 @@ func init() {
 			h("cont.H_Dispose", dsp(0, 2, 3, 0, 1, 0, 1), dsp(0, 2, 4, 1, 2, 0, 1), dspCov, 0, dspDesc),
 		}},
 	)
+	conc := func(ops int) map[string]int { return map[string]int{"ops": ops, "order_schemes": 1} }
+	const concDesc = "two harness goroutines x `ops` operations each from {resolve in shared scope / child scope / provider, CreateScope on scope / provider, Close of scope / provider, cancel of the scope's context}; constructors and Close methods yield; every context switch at those points and at blocking points is a solver-enumerated choice (G1 granularity); no panic, no deadlock (VM detects all-blocked), documented errors only, scoped identity, close counters, goroutine count"
+	const cbDesc = "a Close (of the resolving scope, its parent, or the provider) lands inside a user callback of an in-flight Get / Resolve / CreateScope - literally: the constructor or initializer calls Close; the operation must return a value or a disposed error, never panic, and nothing may leak"
+	const closedDesc = "scope tree of depth 3 plus a sibling; one closing event (Close of any node, or cancellation of the context given to CreateScope, watcher goroutines run to quiescence); afterwards every operation on every node of the closed subtree must report the disposed error and nodes outside keep working"
+	hc := h("cont.H_Conc", conc(1), conc(1), []string{"both_done"}, 10, concDesc)
+	hcb := h("cont.H_CloseInCallback", map[string]int{"order_schemes": 1}, map[string]int{"order_schemes": 2}, []string{"callback_closed"}, 10, cbDesc)
+	properties = append(properties,
+		propertySpec{ID: "C09", Harnesses: []harnessSpec{hc, hcb}},
+		propertySpec{ID: "C13", Harnesses: []harnessSpec{
+			h("cont.H_Closed", map[string]int{"order_schemes": 2}, map[string]int{"order_schemes": 4}, []string{"close_node", "cancel_scope_ctx", "cancel_child_ctx"}, 20, closedDesc),
+			hcb, hc,
+		}},
+	)
+	for i := range properties {
+		switch properties[i].ID {
+		case "C02", "C10", "C12":
+			properties[i].Harnesses = append(properties[i].Harnesses, hc)
+			if properties[i].ID == "C10" {
+				properties[i].Harnesses = append(properties[i].Harnesses, hcb)
+			}
+		}
+	}
 	for i := range properties {
 		switch properties[i].ID {
 		case "C05":
